@@ -129,3 +129,93 @@ package sidx
 //@   ensures  max-covers: forall k :: 0 <= k && k < len(parts) && parts[k].p.partMetadata.MaxTimestamp != nil ==> hasMaxTS && deref(parts[k].p.partMetadata.MaxTimestamp) <= maxVal
 //@   loop 0 invariant forall k :: 0 <= k && k < range_i && parts[k].p.partMetadata.MinTimestamp != nil ==> hasMinTS && minVal <= deref(parts[k].p.partMetadata.MinTimestamp)
 //@   loop 0 invariant forall k :: 0 <= k && k < range_i && parts[k].p.partMetadata.MaxTimestamp != nil ==> hasMaxTS && deref(parts[k].p.partMetadata.MaxTimestamp) <= maxVal
+//
+//@ section C13 C03
+//
+// mergeBlocks: rows that sit in the pending block are never thrown away. Ghost typestate on a block pointer: holdsUnwritten is set
+// when rows are copied or merged into it and cleared when the block has been handed to the writer or merged into another
+// block; a block is reset (and the pending slot marked empty) only when it holds nothing unwritten or has no rows at all.
+// Thin contract ("opt only-stated"): statement-level assertions for every execution that reaches them; the callees are
+// assumed typestate transitions, the row contents are outside this contract.
+//@ type blockPointer
+//@   ghost holdsUnwritten bool
+//@ func generateBlockPointer
+//@   property C13 C03
+//@   assumed pooled block pointer, empty
+//@   ensures result != nil && fresh(result) && !result.holdsUnwritten && len(result.block.userKeys) == 0
+//@ func releaseBlockPointer
+//@   property C13 C03
+//@   assumed returns the block pointer to the pool
+//@ func generateTagValuesDecoder
+//@   property C13 C03
+//@   assumed pooled decoder
+//@ func releaseTagValuesDecoder
+//@   property C13 C03
+//@   assumed pooled decoder
+//@ func blockReader.nextBlockMetadata
+//@   property C13 C03
+//@   assumed advances the k-way reader to the next input block (an arbitrary block pointer distinct from the merge buffers)
+//@   modifies br.block
+//@   ensures  result ==> br.block != nil
+//@ func blockReader.loadBlockData
+//@   property C13 C03
+//@   assumed reads the rows of the current input block
+//@   modifies br.block.block.userKeys
+//@ func blockReader.error
+//@   property C13 C03
+//@   assumed reader error, if any
+//@   pure
+//@ func renameConflictTags
+//@   property C13 C03
+//@   assumed renames conflicting tag columns of the input block (rows unchanged)
+//@ func filterBlockPointer
+//@   property C13 C03
+//@   assumed drops the rows the sampler rejected from the INPUT block (the pending block is not an argument)
+//@   modifies bp.block.userKeys
+//@ func blockPointer.isFull
+//@   property C13 C03
+//@   assumed size test
+//@   pure
+//@ func block.uncompressedSizeBytes
+//@   property C13 C03
+//@   assumed size estimate
+//@   pure
+//@ func blockPointer.copyFrom
+//@   property C13 C03
+//@   assumed copies the rows of src into the receiver: the receiver now holds rows that have not been written
+//@   requires bi != nil && src != nil
+//@   modifies bi.block.userKeys
+//@   modifies bi.holdsUnwritten
+//@   modifies bi.bm.seriesID
+//@   ensures  bi.holdsUnwritten && len(bi.block.userKeys) == len(src.block.userKeys)
+//@ func blockPointer.reset
+//@   property C13 C03
+//@   assumed empties the block pointer
+//@   requires bi != nil
+//@   modifies bi.block.userKeys
+//@   modifies bi.holdsUnwritten
+//@   modifies bi.bm.seriesID
+//@   ensures  !bi.holdsUnwritten && len(bi.block.userKeys) == 0
+//@ func mergeTwoBlocks
+//@   property C13 C03
+//@   assumed merges the remaining rows of left and right into target (its own ordering contract is C09's sibling; here only: the inputs are consumed, the target holds the union)
+//@   requires target != nil && left != nil && right != nil
+//@   modifies target.block.userKeys
+//@   modifies target.holdsUnwritten
+//@   modifies left.holdsUnwritten
+//@   modifies right.holdsUnwritten
+//@   ensures  target.holdsUnwritten && !left.holdsUnwritten && !right.holdsUnwritten
+//@ func blockWriter.mustWriteBlock
+//@   property C13 C03
+//@   assumed encodes and writes one block: its rows are written. In mergeBlocks b is always &bp.block of a block pointer bp (block is blockPointer's first, embedded field), which is how the ghost flag of bp is reached from b
+//@   modifies unbox(b, blockPointer).holdsUnwritten
+//@   ensures  !unbox(b, blockPointer).holdsUnwritten
+//@ func blockWriter.Flush
+//@   property C13 C03
+//@   assumed writes the block index
+//@ func mergeBlocks#pending-rows-are-never-discarded
+//@   mode int
+//@   opt only-stated
+//@   requires bw != nil && br != nil
+//@   at-stmt "pendingBlock.reset()" requires nothing-unwritten-is-reset: !pendingBlock.holdsUnwritten || len(pendingBlock.block.userKeys) == 0
+//@   at-stmt "pendingBlockIsEmpty = true" requires the-pending-slot-is-emptied-only-when-nothing-unwritten-is-in-it: !pendingBlock.holdsUnwritten || len(pendingBlock.block.userKeys) == 0
